@@ -39,6 +39,16 @@ Definition emsg (s : sched) (a b : Z) : list (Z * Z) :=
 (* what an emsg box carries for an event: v0 delta from the segment start, v1 the instant *)
 Definition emsg_time_field (s : sched) (a pt : Z) : Z := if e_version s =? 0 then pt - a else pt.
 
+(* the event_id field of the emsg box (and splice_event_id of a SCTE-35 payload) is 32 bits wide: the running index wraps *)
+Definition emsg_id_field (k : Z) : Z := k mod 2 ^ 32.
+
+(* EventBase.check_parameters: the schedules the service accepts (anything else is answered 400) *)
+Definition params_ok (s : sched) : bool :=
+  (1 <=? e_interval s) && (1 <=? e_timescale s) && (0 <=? e_count s) && (0 <=? e_duration s) && (0 <=? e_start s)
+  && ((e_version s =? 0) || (e_version s =? 1))
+  && (e_timescale s <=? 4294967295) && (e_duration s <=? 4294967295)
+  && (e_timescale s <=? e_interval s * 1000).
+
 (* out-of-band: the manifest lists the first count schedule points *)
 Definition manifest_events (s : sched) : list (Z * Z) :=
   if e_inband s then [] else
